@@ -135,6 +135,7 @@ def main():
     os.makedirs(base, exist_ok=True); os.chown(base, UID, UID); os.chmod(vlib.scratch(), 0o755)
     md = os.path.join(base, "Maildir")
     fails, mism = [], []
+    import gen_common; gen_common.translator_selfcheck(ck, rb, mism)
     jobs = []
     def setup(pop):
         shutil.rmtree(md, ignore_errors=True)
